@@ -23,7 +23,7 @@ ASSUMPTIONS = ["chunk extensions and trailers are not generated (well-formed bod
 GATES = ["partitions_checked", "exhaustive_bodies", "cut:inside-size-digits", "cut:between-size-CR-and-LF",
          "cut:before-first-data-byte", "cut:inside-data", "cut:between-data-and-CR",
          "cut:between-terminating-CR-and-LF", "cut:between-chunks", "cut:inside-zero-chunk",
-         "enc:chunked", "enc:gzip", "enc:zlib", "enc:deflate"]
+         "enc:chunked", "enc:gzip", "enc:zlib", "enc:deflate", "empty_compressed_body"]
 
 ENC = {None: 1, "gzip": 1 | 2, "zlib": 1 | 4, "deflate": 1 | 8}
 NASTY = (b"\r", b"\n", b"\r\n", b"0\r\n\r\n", b"5\r\n", b"a", b"F", b"\r\n\r\n", b"0", b"1f\r\n")
@@ -47,6 +47,13 @@ def make_bodies(rng, nchunks=None, maxlen=40):
 
 def run_case(ctx, bodies, upper, terminate, how, pad, cuts, bufsize, readpat):
     from pyrtcm.socketwrapper import SocketWrapper
+
+    if how is not None and len(bodies) > 1 and (sum(len(b) for b in bodies) + len(cuts)) % 5 == 0:
+        # a chunk whose DECODED body is empty (e.g. an empty compressor flush) is legal with compression
+        bodies = list(bodies)
+        bodies[len(bodies) // 2] = b""
+        cuts = tuple(c for c in cuts if c < len(refchunk.encode(bodies, upper, terminate, how, pad)[0]))
+        ctx.hit("empty_compressed_body")
 
     encoded, layout = refchunk.encode(bodies, upper, terminate, how, pad)
     want = b"".join(bodies)
